@@ -29,6 +29,17 @@ def num_method(t):
     return None
 
 
+def _subterms(t):
+    yield t
+    if isinstance(t, frozenset):
+        for x in t:
+            yield from _subterms(x)
+    elif isinstance(t, tuple):
+        for x in t:
+            if isinstance(x, (tuple, frozenset)):
+                yield from _subterms(x)
+
+
 def run(chk):
     p = core.load_program("all")
     chk.configs = ["all-features"]
@@ -98,51 +109,9 @@ def run(chk):
     ga = ceremony(p, "get_assertion")
     if not chk.require("R2 checked arithmetic", "R2|get_assertion", ga, AUTH, "Authenticator::get_assertion async body not found"):
         return
-    bodies = [b for b in p.nested(ga.path)]
-    # plus U2F authenticate and helpers reachable from the ceremony in the authenticator crate
-    closure = p.call_closure([ga], stop=lambda b: b.crate != "passkey_authenticator")
-    for b in closure.values():
-        if b.crate == "passkey_authenticator" and b not in bodies:
-            bodies.append(b)
-    n_sites = 0
-    inc_sites = []
-    for b in bodies:
-        seeds = reads_field(b, "Passkey", "counter")
-        if not seeds:
-            continue
-        chk.touched(b)
-        tainted = forward_taint(b, seeds)
-        for bb, blk in enumerate(b.blocks):
-            if blk["cleanup"]:
-                continue
-            for i, s in enumerate(blk["stmts"]):
-                if s["k"] == "assign" and s["rv"]["k"] == "binop" and s["rv"]["op"] in ARITH_BAD_OPS | {"Div", "Rem"}:
-                    ops = [s["rv"]["a"], s["rv"]["b"]]
-                    pls = [flow.op_place(o) for o in ops]
-                    if any(pl and pl[0] in tainted for pl in pls):
-                        n_sites += 1
-                        chk.ob("R2 checked arithmetic", "R2|%s|binop %s" % (api_name(b), s["rv"]["op"]), False,
-                               where(b, line=s["line"]),
-                               "MIR %s on a value read from Passkey.counter: panics in debug builds (Assert Overflow) and wraps to 0 in release at u32::MAX" % s["rv"]["op"])
-                        inc_sites.append((b, bb, ops))
-            t = blk["term"]
-            if t and t["k"] == "call":
-                m = num_method(t)
-                if m:
-                    pls = [flow.op_place(o) for o in t["args"]]
-                    if any(pl and pl[0] in tainted for pl in pls):
-                        n_sites += 1
-                        ok = m in NUM_OK
-                        chk.ob("R2 checked arithmetic", "R2|%s|%s" % (api_name(b), m), ok, where(b, bb),
-                               "%s on the stored counter: %s" % (m, "non-wrapping, non-panicking" if ok else "wraps or may panic"))
-                        inc_sites.append((b, bb, t["args"]))
-    chk.require("R2 checked arithmetic", "R2|increment-site", n_sites >= 1, where(ga), "no arithmetic on Passkey.counter found in get_assertion (the increment is expected there)")
-    # R4
-    for b, bb, ops in inc_sites:
-        consts = [flow.const_bits(o) for o in ops if o["k"] == "const"]
-        chk.ob("R4 increment by one", "R4|%s" % api_name(b), consts == [1], where(b, bb), "constant operand(s) of the increment: %s" % consts)
-
-    # R3 / R5
+    # R2..R5 on the value level: the record handed to update_credential, as seen at that call (selections decided by the
+    # call's necessary conditions), is the looked-up credential with `counter` replaced; the replacement is read as a term,
+    # so it does not matter whether the increment is written inline, in a closure passed to map(), or in a helper
     chk.touched(ga)
     ups = names.calls_to(ga, "CredentialStore::update_credential")
     news = names.calls_to(ga, "AuthenticatorData::new")
@@ -152,41 +121,46 @@ def run(chk):
         ub, ut = ups[0]
         nb, nt = news[0]
         T = flow.Terms(p, ga)
-        # local holding the credential that is stored
-        stored_whole = flow.simplify_term(T.operand(ut["args"][1], ub, "t"))
-        # the presence test on the stored counter that guards the update (any idiom)
+        site_conds = normal.conditions(N, p, ga, ub, T, inline=True) or []
+        sw = normal.under(N.inline(T.operand(ut["args"][1], ub, "t")), site_conds)
+        okw = sw[0] == "with" and len(sw[2]) == 1 and all(pth[-1:] == ("counter",) for pth, v in sw[2])
+        chk.ob("R3 reported = stored", "R3|stored-is-credential-with-counter", okw, where(ga, ub), "value given to update_credential = %s" % flow.term_str(sw)[:300])
+        base = sw[1] if sw[0] == "with" else sw
+        stored_counter = [v for pth, v in sw[2]][0] if okw else N.norm(("field", sw, "counter"))
         is_counter = lambda x: isinstance(x, tuple) and len(x) == 3 and x[0] == "field" and x[2] == "counter"
-        some_edges, none_edges = flow.success_edges(p, ga, is_counter, T)
+        # R2 / R4: arithmetic inside the written counter
+        arith = []
+        for x in _subterms(stored_counter):
+            if isinstance(x, tuple) and x and x[0] == "binop" and x[1] in ARITH_BAD_OPS | {"Div", "Rem"}:
+                arith.append(("binop " + x[1], False, x))
+            if isinstance(x, tuple) and len(x) == 4 and x[0] == "call" and isinstance(x[1], str) and x[1].startswith("core::num::<impl u"):
+                m = x[1].rsplit("::", 1)[-1]
+                arith.append((m, m in NUM_OK, x))
+        chk.require("R2 checked arithmetic", "R2|increment-site", len(arith) >= 1, where(ga, ub), "no arithmetic on the stored counter found in the value written back (the increment is expected there)")
+        for m, good, x in arith:
+            chk.ob("R2 checked arithmetic", "R2|Authenticator::get_assertion|%s" % m, good, where(ga, ub),
+                   "%s on the stored counter: %s" % (m, "non-wrapping, non-panicking" if good else "wraps or may panic (MIR Add/Sub on a u32 panics in debug builds and wraps to 0 in release at u32::MAX)"))
+            args = x[2] if x[0] == "call" else x[2:4]
+            consts = [a[1] for a in args if isinstance(a, tuple) and a and a[0] == "const"]
+            from_stored = any(flow.is_payload_of(a, is_counter) or is_counter(a) for a in args)
+            chk.ob("R4 increment by one", "R4|Authenticator::get_assertion", consts == [1] and from_stored, where(ga, ub), "operands of the increment: %s" % [flow.term_str(a)[:60] for a in args])
+        is_some = stored_counter[0] == "agg" and stored_counter[2] == "Some"
+        chk.ob("R2 checked arithmetic", "R2|Authenticator::get_assertion|incremented-counter-is-Some", is_some, where(ga, ub),
+               "counter written back = %s%s" % (flow.term_str(stored_counter)[:200], "" if is_some else " — not a `Some(..)`: at u32::MAX the stored counter is removed and the assertion reports 0"))
+        # R5: update only on the Some edge of a test of the stored counter
+        some_edges, none_edges = flow.success_edges(p, ga, is_counter, T, N=N)
         if chk.require("R5 no counter, no rewrite", "R5|guard", bool(some_edges) and bool(none_edges), where(ga), "no branch on the stored counter's presence found"):
-            # R5: update only through the Some edge
             ok5 = flow.cut_by_edges(ga, 0, [ub], some_edges)
             chk.ob("R5 no counter, no rewrite", "R5|update-guarded-by-Some", ok5, where(ga, ub),
                    "update_credential is %sreachable when the Some edge(s) of the test on the stored counter %s are removed" % ("un" if ok5 else "", some_edges))
-            sw = N.norm(stored_whole)
-            okw = sw[0] == "with" and len(sw[2]) == 1 and all(pth[-1:] == ("counter",) for pth, v in sw[2])
-            chk.ob("R3 reported = stored", "R3|stored-is-credential-with-counter", okw, where(ga, ub),
-                   "value given to update_credential = %s" % flow.term_str(sw)[:300])
-            base = sw[1] if sw[0] == "with" else sw
-            stored_counter = [v for pth, v in sw[2]][0] if okw else N.norm(("field", sw, "counter"))
-            # the reported counter, as a selection on that presence test
-            reported = N.norm(T.operand(nt["args"][1], nb, "t"))
-            sel = {}
-            if reported[0] == "gamma":
-                for l, v in reported[2]:
-                    r = flow.presence_test(reported[1], l)
-                    if r is not None and is_counter(r[0]):
-                        sel[r[1]] = v
-            reported_some, reported_none = sel.get(True), sel.get(False)
-            chk.ob("R3 reported = stored", "R3|some-path", reported_some is not None and reported_some == stored_counter, where(ga, nb),
-                   "reported (paths with a counter) = %s ; stored = %s" % (flow.term_str(reported_some) if reported_some else flow.term_str(reported)[:200], flow.term_str(stored_counter)))
-            # the incremented counter is always Some(..): an Option-returning increment (checked_add) stored as is turns
-            # the counter into None at u32::MAX, which is then reported as 0 (a smaller value) and rewrites the record
-            is_some = stored_counter[0] == "agg" and stored_counter[2] == "Some"
-            chk.ob("R2 checked arithmetic", "R2|Authenticator::get_assertion|incremented-counter-is-Some", is_some, where(ga, ub),
-                   "counter written back = %s%s" % (flow.term_str(stored_counter), "" if is_some else " — not a `Some(..)`: at u32::MAX the stored counter is removed and the assertion reports 0"))
-            # on the None path the reported counter is the stored (absent) one
-            chk.ob("R5 no counter, no rewrite", "R5|none-path-reports-stored", reported_none is not None and reported_none in (("field", base, "counter"), normal.NONE), where(ga, nb),
-                   "reported (paths without counter) = %s" % (flow.term_str(reported_none) if reported_none else "?"))
+        # R3: the reported counter, as a selection on the presence of the stored one
+        reported = N.inline(T.operand(nt["args"][1], nb, "t"))
+        sel, subj = flow.presence_selection(reported, is_counter)
+        reported_some, reported_none = sel.get(True), sel.get(False)
+        chk.ob("R3 reported = stored", "R3|some-path", reported_some is not None and reported_some == stored_counter, where(ga, nb),
+               "reported (paths with a counter) = %s ; stored = %s" % (flow.term_str(reported_some)[:160] if reported_some else flow.term_str(reported)[:200], flow.term_str(stored_counter)[:160]))
+        chk.ob("R5 no counter, no rewrite", "R5|none-path-reports-stored", reported_none is not None and reported_none in (("field", base, "counter"), normal.NONE), where(ga, nb),
+               "reported (paths without counter) = %s" % (flow.term_str(reported_none) if reported_none else "?"))
     # R6: the reported counter equals what the store holds only if the store accepted it
     from .c07 import try_of_await
     aws = flow.awaits(ga)
